@@ -6,7 +6,7 @@ package netpoll
 // symbolic inside one size class each (so a shape is one or two paths, not dozens); the
 // operation(s) that follow are fully symbolic. Class boundaries follow the code's own
 // thresholds: LinkBufferCap (4096), BinaryInplaceThreshold (4096), pagesize (8192).
-const verifShapeCount = 20
+const verifShapeCount = 21
 
 func verifShape(id int) *verifLB {
 	var v *verifLB
@@ -144,6 +144,16 @@ func verifShape(id int) *verifLB {
 		v.opSliceReleaseIdx(0)
 		v.rng(first-a, first-a)
 		v.opSkip()
+	case 20: // split node: header and payload consumed by a zero-copy read, trailer unread
+		v = verifNewLB(verifSizeIn(1, 4096))
+		v.opMallocR(4, 64)
+		first := v.pendN
+		v.opWriteDirectR(1, 64, 1, 63)
+		verifAssume(v.lastRemain < first)
+		v.opFlush()
+		k := first - v.lastRemain + v.lastWD
+		v.rng(k, k)
+		v.opNext()
 	}
 	return v
 }
@@ -158,9 +168,9 @@ func verifSizeIn(lo, hi int) int {
 // Bounded histories (DESIGN 5.1 mode B): a shape, then one arbitrary operation with
 // arbitrary arguments, then drain (flush, read everything back, compare with the reference).
 //
-//verif:bounds 20 shapes (<=7 fixed ops, sizes symbolic per size class) x 1 arbitrary op of 25 kinds + drain (Peek, Next, slice readers, parent Release); sizes <= 8 MB; Until over <=4 readable bytes; loop unrolling 10 per header
+//verif:bounds 21 shapes (<=7 fixed ops, sizes symbolic per size class) x 1 arbitrary op of 25 kinds + drain (Peek, Next, slice readers, parent Release); sizes <= 8 MB; Until over <=4 readable bytes; loop unrolling 10 per header
 //verif:also C02 C03
-//verif:param 0 499
+//verif:param 0 524
 //verif:loop 10
 func verifHarness_C01_hist1(param int) {
 	v := verifShape(param / verifOpCount)
@@ -173,10 +183,10 @@ func verifHarness_C01_hist1(param int) {
 
 // Two arbitrary operations after a shape (thorough tier).
 //
-//verif:bounds 20 shapes x 2 arbitrary ops (25 kinds each) + drain; sizes <= 8 MB; loop unrolling 10
+//verif:bounds 21 shapes x 2 arbitrary ops (25 kinds each) + drain; sizes <= 8 MB; loop unrolling 10
 //verif:also C02 C03
 //verif:tier thorough
-//verif:param 0 499
+//verif:param 0 524
 //verif:loop 10
 func verifHarness_C01_hist2(param int) {
 	v := verifShape(param / verifOpCount)
